@@ -317,15 +317,14 @@ def gen(ctx, I, PI):
             if "d" not in p and n == 0:
                 for l in "LR":
                     cases.append("mdasa %s lay=%s E=%s" % (nm, l, lst(E)))
-    # extents whose product is just below the limit of index_type (short): every tuple still enumerated
+    # extents whose product is just below the limit of index_type (short): every tuple still enumerated (mapping level only:
+    # the list-based store of the model is quadratic in the number of writes)
     big = [("s:d", [32767]), ("s:d,d", [181, 181]), ("s:d,d", [1, 32767]), ("s:d,d,d", [127, 129, 2])]
     if not quick:
         big += [("s:d,d", [32767, 1]), ("s:d,d", [2, 16383]), ("s:d,d,d", [31, 33, 32]), ("s:d,d,d", [2, 2, 8191]), ("s:d,d", [5461, 6])]
     for nm, E in big:
         for S in ([strides_right(E)] if quick else [strides_right(E), strides_left(E)]):
             cases.append("map %s E=%s S=%s" % (nm, lst(E), lst(S)))
-        cases.append("mds %s lay=%s E=%s S=%s base=0" % (nm, rng.choice("LR"), lst(E), lst(strides_right(E))))
-        cases.append("mda %s lay=%s k=mapv E=%s" % (nm, rng.choice("LR"), lst(E)))
     # conversions between compatible extents types (all static/dynamic shape pairs)
     for ts_, ps, td, pd, VV in xcv_pairs(not quick):
         nm = xname(ts_, ps, td, pd)
